@@ -29,8 +29,15 @@ macro_rules! ensure_ne {
     };
 }
 
+// attribute-only string formatting: the result is opaque (no property speaks about attributes)
+macro_rules! format { ($($t:tt)*) => { fmt_opaque() } }
+
 verus! {
 
+#[verifier::external_body]
+pub fn fmt_opaque() -> String { String::new() }
+
+pub use core::cmp::Ordering;
 pub type SMap<K, V> = vstd::map::Map<K, V>;
 pub type Raw = vstd::map::Map<Seq<u8>, Seq<u8>>;
 
@@ -412,6 +419,7 @@ impl<K: KeyT, V: SerT> Map<K, V> {
         requires action.requires((self.get(old(store).view(), k),)),
         ensures
             r is Ok ==> action.ensures((self.get(old(store).view(), k),), r)
+                    && (old(store).view().contains_key(self.rawkey(k)) ==> self.get(old(store).view(), k) is Some)
                     && final(store).view() == old(store).view().insert(self.rawkey(k), r->Ok_0.ser()),
             r is Err ==> final(store).view() == old(store).view(),
     { unimplemented!() }
@@ -466,6 +474,18 @@ pub proof fn lemma_sum_eq(s: Raw, w1: spec_fn(Seq<u8>, Seq<u8>) -> nat, w2: spec
     ensures sum_w(s, w1) == sum_w(s, w2)
 {
     lemma_sum_le(s, w1, w2); lemma_sum_le(s, w2, w1);
+}
+/// two weight functions that agree on every key of `s` except `k0`
+pub proof fn lemma_sum_change_one(s: Raw, w1: spec_fn(Seq<u8>, Seq<u8>) -> nat, w2: spec_fn(Seq<u8>, Seq<u8>) -> nat, k0: Seq<u8>)
+    requires forall|k: Seq<u8>| s.contains_key(k) && k != k0 ==> #[trigger] w1(k, s[k]) == w2(k, s[k])
+    ensures sum_w(s, w2) + (if s.contains_key(k0) { w1(k0, s[k0]) } else { 0 }) == sum_w(s, w1) + (if s.contains_key(k0) { w2(k0, s[k0]) } else { 0 })
+{
+    if s.contains_key(k0) {
+        lemma_sum_remove(s, w1, k0); lemma_sum_remove(s, w2, k0);
+        lemma_sum_eq(s.remove(k0), w1, w2);
+    } else {
+        lemma_sum_eq(s, w1, w2);
+    }
 }
 pub proof fn lemma_sum_zero(s: Raw, w: spec_fn(Seq<u8>, Seq<u8>) -> nat)
     requires forall|k: Seq<u8>| s.contains_key(k) ==> #[trigger] w(k, s[k]) == 0
